@@ -554,13 +554,13 @@ def generate(rng, T):
              [[a, b, c] for a in alpha for b in alpha for c in alpha]
     for lite_s in (True, False):
         for words in words3:
-            if not T and len(words) == 3 and rng.random() < (0.75 if lite_s else 0.9):
+            if not T and len(words) == 3 and rng.random() < (0.85 if lite_s else 0.95):
                 continue
             out.append(mk(lite_s, rb(16), words, "word " + " ".join(words)))
     # write counter boundaries around a second mutual authentication
     for w0 in [0, 0xFD, 0xFE, 0xFF, 0xFFFD, 0xFFFE, 0xFFFF, 0xFFFFFA, 0xFFFFFD, 0xFFFFFE, 0xFFFFFF]:
         out.append(mk(True, rb(16), ["A", "W", "P", "A", "W"], "wcnt %06x" % w0, wcnt=w0))
-    for i in range(120 if T else 25):
+    for i in range(120 if T else 16):
         n = rng.randrange(4, 9)
         words = [rng.choice(["A", "A", "A", "X", "E", "W", "W", "P", "R", "R", "Q", "T", "Tn", "K", "X1"]) for _ in range(n)]
         out.append(mk(bool(i % 3), rb(16) if i % 7 else bytes(16), words, "random " + " ".join(words)))
@@ -811,7 +811,7 @@ def ndef_histories(rng, T):
     for lite_s in (False, True):
         for p in patterns:
             words = p.split()
-            reps = 3 if T else 1
+            reps = 2 if T else 1
             for _ in range(reps):
                 k += 1
                 key, other = rb(16), rb(16)
@@ -869,7 +869,7 @@ def ndef_tamper_rules(rng, T, clean):
         if not T and len(span) > 1:                              # quick tier: one exchange per call (the last one is a data read)
             span = [span[rng.choice([0, len(span) - 1, rng.randrange(len(span))])]]
         for (i, cmd, rsp) in span:
-            picks = [rng.randrange(13, len(rsp))] + ([rng.randrange(13, len(rsp)) for _ in range(3)] if T else [])
+            picks = [rng.randrange(13, len(rsp))] + ([rng.randrange(13, len(rsp))] if T else [])
             if T and len(rsp) >= 13 + 32:
                 picks.append(13 + 16 + rng.randrange(16))
             for p_ in picks:
